@@ -39,7 +39,11 @@ WriteOK(ev) ==
   /\ SegsEq(ev.out, FieldsBytes(t))
   /\ ev.ret = TreeLen(t) /\ ev.len = TreeLen(t)
 
-EvOK(ev) == CASE ev.k = "uf_conv" -> ConvOK(ev) [] ev.k = "uf_write" -> WriteOK(ev) [] OTHER -> TRUE
+\* a tree with a node whose type tag is not a Thrift type / a value that holds no unknown fields: refused, no panic
+BadOK(ev) == ~ev.panic /\ ~ev.lenok /\ ~ev.writeok
+
+EvOK(ev) == CASE ev.k = "uf_conv" -> ConvOK(ev) [] ev.k = "uf_write" -> WriteOK(ev)
+              [] ev.k = "uf_bad" -> (Prop = "C13") => BadOK(ev) [] OTHER -> TRUE
 TraceInit == l = 1
 TraceNext == /\ l <= Len(Trace) /\ l' = l + 1
              /\ LET ev == Trace[l] IN ~EvOK(ev) => ReportWhy("MISMATCH", l, ev.k \o "/" \o ev.api)
